@@ -211,8 +211,18 @@ where
         match v {
             Value::Boolean(b) => write!(self.w, "{}", if b.val { "true" } else { "false" })?,
             Value::Empty(_) => write!(self.w, "NULL")?,
-            // TODO(jwall): We should maintain precision for floats?
-            Value::Float(f) => write!(self.w, "{}", f.val)?,
+            // `{}` prints the shortest decimal that reads back as the same f64,
+            // but without a fraction for integral values. Keep the `.0` so the
+            // literal is still a float (and not an out of range integer) when
+            // the formatted text is parsed again.
+            Value::Float(f) => {
+                let text = format!("{}", f.val);
+                if f.val.is_finite() && !text.contains('.') {
+                    write!(self.w, "{}.0", text)?
+                } else {
+                    write!(self.w, "{}", text)?
+                }
+            }
             Value::Int(i) => write!(self.w, "{}", i.val)?,
             Value::Str(s) => write!(self.w, "\"{}\"", Self::escape_quotes(&s.val))?,
             Value::Symbol(s) => write!(self.w, "{}", s.val)?,
